@@ -109,6 +109,7 @@ __CPROVER_ensures(*indent >= __CPROVER_old(*indent) - 4 * (int)orig_len && *inde
 #define VERIF_MAP_GLUE 0
 #endif
 #define L3_REQUIRES \
+  __CPROVER_requires(f != NULL) \
   __CPROVER_requires(fmon_on && mon_on && g_pos == 0 && g_len <= VERIF_FILE_MAX) \
   __CPROVER_requires(fmon_phase == FPH_START && fmon_lines == g_lines_listed && g_lines_listed < (1ul << 38)) \
   __CPROVER_requires((m == &SPEC_MAP || VERIF_MAP_GLUE) && mon_map == m && mon_listo == listo && mon_indent_run == 0) \
